@@ -1,15 +1,435 @@
-//! Thorough tier: crash images of the history itself (filled in after the file-level enumeration).
+//! Thorough tier: crash images of the history itself, taken by simdisk at every write / fsync /
+//! ftruncate of the run (state just before the call), under three crash models: `kill` (all
+//! completed write() calls survive), `power-strict` (only fsynced content survives) and
+//! `power-random` (each unsynced 4 KiB block independently survives or not).
+//!
+//! Oracle, `kill` image: the recovered log must be, segment by segment, a prefix of the frames
+//! the model has for that segment — at least the frames known to be flushed to the file before
+//! the operation during which the image was taken, at most the frames issued up to and
+//! including that operation.
+//! Oracle, power images: a power image is the kill image of the same crash point with unsynced
+//! bytes lost, i.e. the kill image plus a stored-byte fault. C03 promises no durability (that is
+//! C01/C02), so the expectation is the same as for the enumerated file faults: exactly the
+//! frames before the first damaged byte (strict prefix), or — when every damaged closed segment
+//! merely ends early in zeros / end-of-file on a frame boundary, which no reader can tell from
+//! a shorter segment — each segment's intact frames.
 
-use crate::engine::{Acc, CaseSpec};
+use crate::engine::{Acc, CaseSpec, Proto};
+use crate::exec::{self, ExecOut, RecoverPlan, Runner};
+use crate::model::*;
 use serde::{Deserialize, Serialize};
+use std::collections::{BTreeMap, BTreeSet};
 use std::path::Path;
 
 #[derive(Serialize, Deserialize, Clone, Debug, PartialEq)]
 pub struct CrashSel {
-    pub ordinal: u64,
+    /// simdisk crash-point ordinal; None = every point (used while shrinking)
+    pub ordinal: Option<u64>,
+    /// "kill" | "power-strict" | "power-random(n)"
     pub model: String,
+    /// simdisk seed of the run that found it (decides which unsynced blocks a power-random
+    /// image keeps)
+    #[serde(default)]
+    pub seed: u64,
 }
 
-pub fn run_crash_points(_spec: &CaseSpec, _root: &Path, _seed: u64, _acc: &mut Acc, _only: Option<&CrashSel>) -> Result<(), String> {
-    Ok(())
+#[derive(Clone, Debug, Default)]
+struct Lo {
+    /// per segment: frames certainly in the file / certainly durable
+    kill: BTreeMap<u64, usize>,
+    power: BTreeMap<u64, usize>,
+}
+
+fn seg_counts(m: &Model) -> BTreeMap<u64, usize> {
+    m.segs.iter().map(|(s, v)| (*s, v.len())).collect()
+}
+
+fn update_lo(lo: &mut Lo, op: &Op, pre: &Model, post: &Model) {
+    let cur = post.cur;
+    let n_cur = post.segs.get(&cur).map(|v| v.len()).unwrap_or(0);
+    match op {
+        Op::Write { .. } | Op::Undo { .. } | Op::Batch { sync: true, .. } => {
+            if pre.is_sync_full() {
+                lo.kill.insert(cur, n_cur);
+                lo.power.insert(cur, n_cur);
+            }
+        }
+        Op::Batch { sync: false, .. } | Op::SyncMode { .. } => {}
+        Op::Sync | Op::ReadPages => {
+            lo.kill.insert(cur, n_cur);
+            lo.power.insert(cur, n_cur);
+        }
+        Op::Rotate => {
+            let old = pre.cur;
+            lo.kill.insert(old, pre.segs.get(&old).map(|v| v.len()).unwrap_or(0));
+        }
+        Op::Reopen => {
+            let old = pre.cur;
+            lo.kill.insert(old, pre.segs.get(&old).map(|v| v.len()).unwrap_or(0));
+        }
+        Op::Truncate => {
+            lo.kill.clear();
+            lo.power.clear();
+        }
+    }
+}
+
+/// All acceptable (per-segment prefix) frame sequences, as lists of frames.
+type SFrame = (u64, MFrame);
+
+fn allowed_sequences(model: &Model, lo: &BTreeMap<u64, usize>, hi: &BTreeMap<u64, usize>, relax_seg: Option<u64>, cap: usize) -> Vec<Vec<SFrame>> {
+    let mut out: Vec<Vec<SFrame>> = vec![vec![]];
+    for (s, fs) in &model.segs {
+        let h = hi.get(s).copied().unwrap_or(fs.len()).min(fs.len());
+        let mut l = lo.get(s).copied().unwrap_or(0).min(h);
+        if relax_seg == Some(*s) {
+            l = 0;
+        }
+        let mut next = vec![];
+        for base in &out {
+            for k in l..=h {
+                let mut v = base.clone();
+                v.extend(fs[..k].iter().map(|f| (*s, f.clone())));
+                next.push(v);
+                if next.len() >= cap {
+                    break;
+                }
+            }
+        }
+        out = next;
+    }
+    out
+}
+
+fn state_of(frames: &[SFrame], proj: Proj) -> (BTreeMap<u32, u32>, u32) {
+    let mut st = BTreeMap::new();
+    let mut n = 0;
+    for (_, f) in frames {
+        if matches(proj, f) {
+            st.insert(f.page, f.tag);
+            n += 1;
+        }
+    }
+    (st, n)
+}
+
+fn img_matches(st: &BTreeMap<u32, u32>, pages: &[Img], init_pages: u32) -> bool {
+    let top = (pages.len() as u32).max(NPAGES + 2);
+    (0..top).all(|p| {
+        let obs = pages.get(p as usize).copied().unwrap_or(Img::Absent);
+        let exp = match st.get(&p) {
+            Some(t) => Img::Tag(*t),
+            None if p < init_pages => Img::Base,
+            None => Img::Zero,
+        };
+        exp == obs || (p >= init_pages && exp == Img::Zero && obs == Img::Absent)
+    })
+}
+
+fn wal_files(img: &simdisk::Image) -> BTreeMap<u64, std::sync::Arc<Vec<u8>>> {
+    let mut m = BTreeMap::new();
+    for (rel, data) in &img.files {
+        if let Some(name) = rel.strip_prefix("wal/wal.") {
+            if let Ok(s) = name.parse::<u64>() {
+                m.insert(s, data.clone());
+            }
+        }
+    }
+    m
+}
+
+/// The model frames a (kill) image physically holds, read off its bytes; None if the files do
+/// not look like per-segment prefixes of the model log.
+fn frames_in_files(model: &Model, files: &BTreeMap<u64, std::sync::Arc<Vec<u8>>>) -> Option<Vec<SFrame>> {
+    let mut out = vec![];
+    for (s, data) in files {
+        let fs = match model.segs.get(s) {
+            Some(f) => f,
+            None if data.is_empty() => continue,
+            None => return None,
+        };
+        if data.len() % FRAME != 0 || data.len() / FRAME > fs.len() {
+            return None;
+        }
+        for (i, f) in fs.iter().take(data.len() / FRAME).enumerate() {
+            let b = &data[i * FRAME..(i + 1) * FRAME];
+            let fid = u64::from_le_bytes(b[0..8].try_into().ok()?);
+            let page = u32::from_le_bytes(b[8..12].try_into().ok()?);
+            if fid != f.fid || page != f.page || decode(&b[HDR..]) != Img::Tag(f.tag) {
+                return None;
+            }
+            out.push((*s, f.clone()));
+        }
+    }
+    Some(out)
+}
+
+/// What a power image (= kill image with bytes lost) may recover to, given the frames `fk` the
+/// kill image holds: the strict prefix before the first damaged byte and, if every damage in a
+/// closed segment is a clean early end, each segment's intact frames.
+fn power_expectations(fk: &[SFrame], kfiles: &BTreeMap<u64, std::sync::Arc<Vec<u8>>>, pfiles: &BTreeMap<u64, std::sync::Arc<Vec<u8>>>) -> Vec<Vec<SFrame>> {
+    let last = kfiles.keys().next_back().copied().unwrap_or(1);
+    let mut strict: Vec<SFrame> = vec![];
+    let mut per_seg: Vec<SFrame> = vec![];
+    let mut stopped = false;
+    let mut all_clean = true;
+    for (s, kd) in kfiles {
+        let empty = std::sync::Arc::new(Vec::new());
+        let pd = pfiles.get(s).unwrap_or(&empty);
+        let common = kd.len().min(pd.len());
+        let first_diff = (0..common).find(|i| kd[*i] != pd[*i]).or(if kd.len() != pd.len() { Some(common) } else { None });
+        let frames_here: Vec<&SFrame> = fk.iter().filter(|(fs, _)| fs == s).collect();
+        let intact = match first_diff {
+            None => frames_here.len(),
+            Some(d) => frames_here.len().min(d / FRAME),
+        };
+        if let Some(d) = first_diff {
+            let clean = d % FRAME == 0 && pd[d.min(pd.len())..].iter().all(|b| *b == 0);
+            if !clean && *s != last {
+                all_clean = false;
+            }
+        }
+        per_seg.extend(frames_here.iter().take(intact).map(|f| (*f).clone()));
+        if !stopped {
+            strict.extend(frames_here.iter().take(intact).map(|f| (*f).clone()));
+            if first_diff.is_some() {
+                stopped = true;
+            }
+        }
+    }
+    let mut out = vec![strict];
+    if all_clean {
+        out.push(per_seg);
+    }
+    out
+}
+
+pub fn run_crash_points(spec: &CaseSpec, root: &Path, seed: u64, acc: &mut Acc, only: Option<&CrashSel>) -> Result<(), String> {
+    let sim_root = root.join("crashroot");
+    let _ = std::fs::remove_dir_all(&sim_root);
+    std::fs::create_dir_all(&sim_root).map_err(|e| format!("mkdir {}: {}", sim_root.display(), e))?;
+    let sim_root_s = sim_root.to_str().ok_or("bad scratch path")?.to_string();
+    simdisk::install(&sim_root_s, seed);
+    let want_model = only.map(|o| o.model.clone());
+    simdisk::with(|s| {
+        s.capture = Some(simdisk::CapturePolicy {
+            // the kill image of a point is the reference for its power images: always taken
+            kill: true,
+            power_strict: want_model.as_deref().map_or(true, |m| m == "power-strict"),
+            power_random: if want_model.as_deref().map_or(true, |m| m.starts_with("power-random")) { 1 } else { 0 },
+            kinds: vec!['W', 'S', 'T'],
+            only_ordinal: only.and_then(|o| o.ordinal),
+            max_points: 100_000,
+        })
+    });
+    let wal_dir = sim_root.join("wal");
+    let mut out = ExecOut { model: Model::new(), ..Default::default() };
+    let mut runner = Runner::start(spec.start == "open", &wal_dir, &mut out);
+    let _ = simdisk::take_images();
+    let mut lo = Lo::default();
+    let img_dir = root.join("img");
+    let mut result = Ok(());
+    let n_ops = spec.ops.len();
+    // the final drop of the Wal is one more "operation" (it flushes)
+    for i in 0..=n_ops {
+        simdisk::begin_op();
+        let pre = out.model.clone();
+        let op_kind: String;
+        let is_truncate;
+        if i < n_ops {
+            let op = &spec.ops[i];
+            op_kind = op.kind().to_string();
+            is_truncate = matches!(op, Op::Truncate);
+            let cont = runner.step(i, op, &mut out);
+            if !cont {
+                break;
+            }
+        } else {
+            op_kind = "drop".into();
+            is_truncate = false;
+            runner.finish(n_ops, &mut out);
+        }
+        let post = out.model.clone();
+        let images = simdisk::take_images();
+        let hi = seg_counts(&post);
+        let model_ref = if is_truncate { &pre } else { &post };
+        let mut seen_images: BTreeSet<u64> = BTreeSet::new();
+        // per crash point: the frames its kill image holds (None = the kill image itself was wrong)
+        let mut kill_ref: BTreeMap<u64, Option<(Vec<SFrame>, BTreeMap<u64, std::sync::Arc<Vec<u8>>>)>> = BTreeMap::new();
+        for img in images {
+            let model_name = img.model.as_str();
+            let model_class = model_name.split('(').next().unwrap_or("").to_string();
+            let kill = img.model == simdisk::CrashModel::Kill;
+            let wanted = want_model.as_deref().map_or(true, |m| m == model_name);
+            acc.out.count(&format!("crash_points/{}/{}", img.point.kind, model_class), 1);
+            if !kill && !seen_images.insert(img.hash ^ simcore::rng::fnv1a(model_name.as_bytes())) {
+                acc.out.count("crash_images_identical_skipped", 1);
+                continue;
+            }
+            // acceptable logs
+            let allowed: Vec<Vec<SFrame>> = if kill {
+                let mut a = vec![];
+                if is_truncate {
+                    a.extend(allowed_sequences(&pre, &lo.kill, &seg_counts(&pre), Some(pre.cur), 4000));
+                    a.push(vec![]);
+                } else {
+                    a.extend(allowed_sequences(&post, &lo.kill, &hi, None, 4000));
+                }
+                a
+            } else {
+                match kill_ref.get(&img.point.ordinal) {
+                    Some(Some((fk, kfiles))) => power_expectations(fk, kfiles, &wal_files(&img)),
+                    _ => {
+                        acc.out.count("crash_power_images_without_sound_kill_reference", 1);
+                        continue;
+                    }
+                }
+            };
+            let _ = std::fs::remove_dir_all(&img_dir);
+            simdisk::write_image(&img, img_dir.to_str().unwrap_or("/dev/shm/walsim-img"));
+            let plan = RecoverPlan { init_pages: 8, for_files: (0..NFILES).collect(), replay_files: vec![], read_pages: false };
+            let rec = match exec::recover_dir(&img_dir.join("wal"), &root.join("st"), &plan, &mut acc.pool) {
+                Ok(r) => r,
+                Err(e) => {
+                    result = Err(e);
+                    break;
+                }
+            };
+            acc.note_recovered(&rec);
+            acc.out.count("crash_images_recovered", 1);
+            acc.out.count(&format!("crash_images_recovered/{}", model_class), 1);
+            acc.combos.insert(format!("crash|{}|{}|{}", img.point.kind, model_class, op_kind));
+            let mut sig: BTreeMap<String, String> = BTreeMap::new();
+            sig.insert("api".into(), "recover".into());
+            sig.insert("fault".into(), "crash".into());
+            sig.insert("crash_model".into(), model_class.clone());
+            sig.insert("during".into(), op_kind.clone());
+            for f in model_ref.shape_fields() {
+                sig.insert(f.to_string(), "yes".into());
+            }
+            let where_txt = format!(
+                "{} image at crash point #{} ({} on {} at {}) during op #{} ({})",
+                model_name, img.point.ordinal, img.point.kind, img.point.file, img.point.at, i, op_kind
+            );
+            let mut proto: Option<Proto> = None;
+            let mut matched: Option<Vec<SFrame>> = None;
+            if let Some(site) = &rec.open_panic {
+                sig.insert("site".into(), site.clone());
+                proto = Some(Proto { verdict: "panic".into(), sig: sig.clone(), detail: format!("Wal::open panicked at {}: {}", site, where_txt) });
+            } else if let Some(e) = &rec.open_err {
+                proto = Some(Proto { verdict: "recover-error-on-damaged-log".into(), sig: sig.clone(), detail: format!("Wal::open returned Err({}): {}", e, where_txt) });
+            } else {
+                for a in &rec.apis {
+                    if let Some(site) = &a.panic {
+                        sig.insert("site".into(), site.clone());
+                        proto = Some(Proto { verdict: "panic".into(), sig: sig.clone(), detail: format!("{} panicked at {}: {}", a.api, site, where_txt) });
+                        break;
+                    }
+                    let n = match &a.result {
+                        Ok(n) => *n,
+                        Err(e) => {
+                            proto = Some(Proto { verdict: "recover-error-on-damaged-log".into(), sig: sig.clone(), detail: format!("{} returned Err({}): {}", a.api, e, where_txt) });
+                            break;
+                        }
+                    };
+                    let hit = allowed.iter().find(|fr| {
+                        let (st, cnt) = state_of(fr, a.proj);
+                        cnt == n && img_matches(&st, &a.pages, 8)
+                    });
+                    if let Some(fr) = hit {
+                        if a.proj == Proj::All {
+                            matched = Some(fr.clone());
+                        }
+                        continue;
+                    }
+                    // classify against the largest acceptable log
+                    let largest: Vec<SFrame> = allowed.iter().max_by_key(|f| f.len()).cloned().unwrap_or_default();
+                    let (st_full, _) = state_of(&largest, a.proj);
+                    let state_ok = allowed.iter().any(|fr| img_matches(&state_of(fr, a.proj).0, &a.pages, 8));
+                    let mut verdict = if state_ok { "applied-count-mismatch" } else { "valid-frame-lost" };
+                    let mut notes = vec![];
+                    if !state_ok {
+                        let mut best = 99;
+                        for p in 0..(a.pages.len() as u32).max(NPAGES + 2) {
+                            let obs = a.pages.get(p as usize).copied().unwrap_or(Img::Absent);
+                            let exp = st_full.get(&p).map(|t| Img::Tag(*t)).unwrap_or(Img::Base);
+                            if obs == exp {
+                                continue;
+                            }
+                            let (prio, v): (u32, &str) = match obs {
+                                Img::Zero => (1, "hole-replayed-as-frame"),
+                                Img::Garbage(_) => (2, "garbage-page-applied"),
+                                Img::Tag(t) => match model_ref.tags.get(&t) {
+                                    None => (2, "garbage-page-applied"),
+                                    Some((fid, page)) => {
+                                        let wrong_file = matches!(a.proj, Proj::File(f) if f != *fid);
+                                        let in_model = model_ref.sequence().iter().any(|(_, _, f)| f.tag == t);
+                                        if *page != p || wrong_file {
+                                            (3, "misattributed-frame")
+                                        } else if !in_model {
+                                            (4, "truncated-frame-replayed")
+                                        } else if !largest.iter().any(|(_, f)| f.tag == t) {
+                                            (5, "recovered-beyond-corruption")
+                                        } else {
+                                            (7, "stale-image-wins")
+                                        }
+                                    }
+                                },
+                                _ => (6, "valid-frame-lost"),
+                            };
+                            notes.push(format!("page {}: acceptable at most {}, found {}", p, exp.show(), obs.show()));
+                            if prio < best {
+                                best = prio;
+                                verdict = v;
+                            }
+                        }
+                    }
+                    let acc_txt: Vec<String> = allowed
+                        .iter()
+                        .take(3)
+                        .map(|fr| format!("[{}]", fr.iter().map(|(s, f)| format!("seg{}:#{}", s, f.tag)).collect::<Vec<_>>().join(" ")))
+                        .collect();
+                    let found: Vec<String> = a.pages.iter().enumerate().filter(|(_, i)| !matches!(i, Img::Base)).map(|(p, i)| format!("p{}={}", p, i.show())).collect();
+                    proto = Some(Proto {
+                        verdict: verdict.into(),
+                        sig: sig.clone(),
+                        detail: format!(
+                            "{}: {}({:?}) recovered {{{}}} with {} frames applied; {} acceptable logs, e.g. {}{}; {}",
+                            where_txt,
+                            a.api,
+                            a.proj,
+                            found.join(" "),
+                            n,
+                            allowed.len(),
+                            acc_txt.join(" / "),
+                            if kill { " (per segment: at least the frames flushed before this operation, at most those issued so far)" } else { " (frames of the kill image of this point before the first lost byte)" },
+                            notes.join("; ")
+                        ),
+                    });
+                    break;
+                }
+            }
+            if kill {
+                let kf = wal_files(&img);
+                let reference = if proto.is_none() && matched.is_some() { frames_in_files(model_ref, &kf).map(|m| (m, kf)) } else { None };
+                kill_ref.insert(img.point.ordinal, reference);
+            }
+            if let Some(p) = proto {
+                if wanted {
+                    let mut case = spec.clone();
+                    case.fault = None;
+                    case.crash = Some(CrashSel { ordinal: Some(img.point.ordinal), model: img.model.as_str(), seed });
+                    acc.push(p, &case);
+                }
+            }
+        }
+        if result.is_err() {
+            break;
+        }
+        if i < n_ops {
+            update_lo(&mut lo, &spec.ops[i], &pre, &post);
+        }
+    }
+    simdisk::with(|s| s.capture = None);
+    result
 }
